@@ -276,5 +276,6 @@ func (c *AdapterProxy) doKeepAlive() {
 		c.failAdd()
 		return
 	}
-	c.successAdd()
+	// the ping is one-way: that it could be sent says nothing about the server, and counting
+	// it as a success would keep an endpoint that answers no call in rotation for good
 }
